@@ -403,6 +403,18 @@ def regex_selftest(patterns, subjects):
     return n
 
 
+def _regex_runtime_selftest(patterns):
+    """run once per process for the patterns a kernel hands to SymRegex"""
+    import itertools
+    subjects = {"", "{\\rtf1{\\info{\\title  A b}{\\author x}}\\pard}", "{\\info {\\title a}{\\*\\category c}} {\\x",
+                "\\emdash \\emdash\\x \\bullet}", "\\'e9\\'G1\\'0a", "\\u-123?\\u55357\\u9", "\n\n\n\n a \t\t b",
+                "text/html; CHARSET=x", "charset=utf-8; x"}
+    for n in range(1, 4):
+        for t in itertools.product("\\u-1?'a{ }\n", repeat=n):
+            subjects.add("".join(t))
+    return regex_selftest(patterns, sorted(subjects))
+
+
 # =======================================================================================
 # shared helpers
 # =======================================================================================
@@ -456,6 +468,95 @@ def _show(x):
         c = x.concrete()
         return c if c is not None else "<symbolic len=%d>" % len(x.c)
     return x
+
+
+# ---------------------------------------------------------------------------------------
+# K2e  every registered extractor hands the path argument to the metadata of every result
+# ---------------------------------------------------------------------------------------
+
+F_ARCHIVE_CWD = "C04-archive-member-without-archive-path-resolved-against-cwd"
+
+_FIXTURE = {
+    "read_docx": "modern_ms/headings.docx", "read_pptx": "modern_ms/pptx_table.pptx", "read_xlsx": "modern_ms/mwe.xlsx",
+    "read_doc": "legacy_ms/headings.doc", "read_ppt": "legacy_ms/slide_with_notes.ppt", "read_xls": "legacy_ms/mwe.xls",
+    "read_rtf": "legacy_ms/2025.144.un.rtf", "read_odt": "open_office/headings.odt",
+    "read_odp": "open_office/slide_with_notes.odp", "read_ods": "open_office/sample_spreadsheet.ods",
+    "read_odg": "open_office/drawing.odg", "read_odf": "open_office/formular.odf", "read_pdf": "pdf/sample.pdf",
+    "read_html": "html/sample.html", "read_mhtml": "html/sample.mhtml", "read_epub": "epub/sample.epub",
+    "read_plain_text": "plain_text/plain.txt", "read_eml_format_mail": "mails/msg_with_attachment.eml",
+    "read_mbox_format_mail": "mails/basic_email.mbox", "read_msg_format_mail": "mails/msg_with_attachment.msg",
+    "read_archive": "archives/test_archive.zip",
+}
+_PATH_FORMS = [None, "c04-no-such-dir/sub/name.x.ext", "/c04-no-such-root/dir/name.ext",
+               "c04-outer.zip!/inner/n.ext", "c04-no-such-dir/\u00fcn\u00ef c\u00f6d\u00e9.ext", "c04-no-such-file",
+               "c04-no-such-dir.d/.hidden", "./c04-no-such-dir//x.tar.gz"]
+
+
+def _all_extractors():
+    import importlib
+    from sharepoint2text.parsing import router
+    out = {}
+    for ft, (modname, fn) in router._EXTRACTOR_REGISTRY.items():
+        out.setdefault(fn, getattr(importlib.import_module(modname), fn))
+    return out
+
+
+def k2_extractors(ctx):
+    import os
+    import logging
+    logging.getLogger("pypdf").setLevel(logging.ERROR)
+    name = ctx.params["extractor"]
+    fn = _all_extractors()[name]
+    path = _PATH_FORMS[ctx.choice("path_form", len(_PATH_FORMS))]
+    with open(os.path.join(S.REPO, "sharepoint2text/tests/resources", _FIXTURE[name]), "rb") as f:
+        data = f.read()
+    try:
+        results = list(fn(io.BytesIO(data), path))
+    except Exception as e:
+        ctx.fail("extractor-raised-on-fixture", extractor=name, exc=type(e).__name__, msg=str(e)[:80])
+        return
+    ctx.require(len(results) > 0, "fixture-gave-no-result", extractor=name)
+    cwd = os.getcwd()
+    for k, r in enumerate(results):
+        try:
+            md = r.get_metadata()
+        except Exception as e:
+            ctx.fail("get_metadata-raised", extractor=name, exc=type(e).__name__)
+            return
+        got = (md.filename, md.file_extension, md.file_path, md.folder_path)
+        if name == "read_archive":
+            # members are named <archive path>!/<member>
+            if path is None:
+                if _known(ctx, F_ARCHIVE_CWD):
+                    continue
+                ctx.require(all(v is None or not v.startswith(cwd) for v in got),
+                            "member-metadata-derived-from-working-directory", extractor=name, result=k, got=repr(got))
+            else:
+                norm = _ref_join(*_ref_components(path))
+                ctx.require(md.file_path is not None and md.file_path.startswith(norm + "!/") and
+                            md.folder_path.startswith(norm + "!") and md.file_path.endswith("/" + md.filename),
+                            "member-path-not-derived-from-archive-path", extractor=name, got=repr(got))
+            continue
+        if path is None:
+            want_none = got if ctx.perturb != "filename_expected_without_path" else ("x",)
+            ctx.require(all(v is None for v in want_none), "path-fields-not-none-without-path",
+                        extractor=name, result=k, got=repr(got))
+            continue
+        lead, comps = _ref_components(path)
+        ctx.require(md.filename == comps[-1], "filename-is-not-the-final-component", extractor=name, got=repr(got))
+        ctx.require(md.file_extension in _ref_extension_candidates(comps[-1]),
+                    "extension-differs-from-file-name-suffix", extractor=name, got=repr(got))
+        parent = _ref_join(lead, comps[:-1])
+        if os.path.exists(parent or "."):
+            want = [_ref_resolve(lead, comps[:-1], cwd)]
+        else:
+            want = [parent] if parent else [".", ""]
+        ctx.require(md.folder_path in want, "folder-differs-from-path-without-final-component",
+                    extractor=name, got=repr(got), want=want)
+
+
+def _k2e_parts(tier):
+    return [{"extractor": n} for n in sorted(_all_extractors())]
 
 
 # =======================================================================================
@@ -525,6 +626,10 @@ def _rtf_lifted_parser(ctx, chr_model):
         p0 = object.__new__(m._RtfParser)
         m._RtfParser.__init__(p0, b"")
         L["special"] = [(SymRegex(rx), S.CharStr(ch)) for rx, ch in p0._special_char_patterns]
+        _regex_runtime_selftest([getattr(m, g) for g in _RTF_REGEX_GLOBALS] +
+                                [rx for rx, _ in p0._special_char_patterns[:8]] +
+                                [re.compile(r"\{\\title\s+([^}]*)\}", re.I | re.S),
+                                 re.compile(r"\{\\[*]?\\?category\s+([^}]*)\}", re.I | re.S)])
     L["chr"].target = chr_model
     p = object.__new__(m._RtfParser)
     p.data = b""
@@ -613,7 +718,7 @@ def _k3_parts(tier):
             for suffix in ("", "?x"):
                 parts.append({"site": site, "len": n, "prefix": "\\u", "alphabet": "num", "suffix": suffix})
         # \\u / \\' / nothing + free characters of the RTF alphabet
-        tops = {("full", True): (4, 4, 4), ("simple", True): (3, 4, 4),
+        tops = {("full", True): (4, 4, 4), ("simple", True): (3, 3, 4),
                 ("full", False): (5, 5, 5), ("simple", False): (4, 5, 5)}[(site, q)]
         for prefix, top in zip(("\\u", "\\'", ""), tops):
             for n in range(1, top + 1):
@@ -1234,9 +1339,13 @@ def k2_path_metadata(ctx):
         ctx.require(all(v is None for v in vals), "path-fields-not-none-without-path", got=repr(vals))
         return
     path = _alphabet(ctx, ctx.fresh_chars("path", n, 1, 255), _K2_SINGLES)
-    file_exists = ctx.flag("file_exists")
-    folder_exists = ctx.flag("folder_exists")
-    ctx.assume(folder_exists or not file_exists)
+    # the file system's answers are symbolic booleans: the branch in populate_from_path is a solver fork
+    file_exists = ctx.fresh_bool("file_exists")
+    folder_exists = ctx.fresh_bool("folder_exists")
+    if ctx.concrete:
+        ctx.assume(folder_exists or not file_exists)
+    else:
+        ctx.assume(z3.Implies(file_exists.z, folder_exists.z))
     lead, comps = _ref_components(path)
     # the path names a file: it has a final component, which is not '..'
     ctx.assume(len(comps) > 0)
@@ -1290,7 +1399,7 @@ def k2_path_metadata(ctx):
     oks = [_seq_eq(md.folder_path, w) for w in want]
     ok = True if any(o is True for o in oks) else [o for o in oks if o is not False]
     ctx.require(ok if ok is True else (z3.Or(*ok) if ok else False), "folder-differs-from-path-without-final-component",
-                folder=_show(md.folder_path), path=_show(path), folder_exists=folder_exists)
+                folder=_show(md.folder_path), path=_show(path))
 
 
 def _k2_parts(tier):
@@ -1647,6 +1756,7 @@ def _html_lifted_extractor(root):
     L = _HTML_LIFT
     if not L:
         ns = dict(_RE_CHARSET_IN_CONTENT=SymRegex(h._RE_CHARSET_IN_CONTENT))
+        _regex_runtime_selftest([h._RE_CHARSET_IN_CONTENT])
         L["meta"] = lift.lift(h._HtmlTextExtractor._extract_metadata, **ns)
         L["text"] = lift.lift(h._HtmlTextExtractor._get_node_text, **ns)
     ex = h._HtmlTextExtractor(root)
@@ -1979,6 +2089,16 @@ KERNELS = [
                         "extension of names whose only dots lead or trail ('.bashrc', 'a.', '..a'): any convention accepted"],
            outside=["Windows path flavour", "paths longer than the bound"],
            timeout={"quick": 200, "thorough": 1500}),
+    Kernel("K2e", "every registered extractor hands its path argument to the metadata of every result it yields",
+           k2_extractors, targets=lambda: list(_all_extractors().values()), parts=_k2e_parts,
+           strength="structure", core=False,
+           perturb=[("filename_expected_without_path", {"extractor": "read_plain_text"})],
+           choices=["extractor (router registry)", "path form: None, relative, absolute, archive!/member, non-ASCII, "
+                    "no extension, hidden file, ./ and // and compound extension"],
+           assumptions=["one fixture file of the repository's test resources per extractor",
+                        "archive members: named <archive path>!/<member>; without an archive path only 'nothing "
+                        "derived from the working directory' is demanded"],
+           outside=["results of damaged-but-accepted files"]),
     Kernel("K3", "RTF strippers never put a surrogate code point into extracted text (UTF-8 encodable)",
            k3_unicode, targets=_k3_targets, parts=_k3_parts,
            perturb=[("demand_ascii", {"site": "full", "len": 3, "prefix": "\\u", "alphabet": "num", "suffix": ""})],
